@@ -286,6 +286,17 @@ def check(ctx):
     v = [e for e in raises if "ValueError" in (e.data.get("exc_name") or "")]
     ok = bool(v) and any(a is RES for a in tm.atoms(v[0].live)) and any(
         is_call_to(a, "builtins.all") for a in tm.atoms(v[0].live))
+    if not ok and v:
+        # the two refusals written as separate statements / a loop over the
+        # elements: some ValueError depends on the emptiness of the input
+        # and some on the type of its elements
+        ln = tm.call(tm.glob("builtins.len"), (RES,), ())
+        empt = any(a is RES or (a.op == "cmp" and ln in (a.args[1],
+                                                          a.args[2]))
+                   for e in v for a in tm.atoms(e.live))
+        typ = any(is_call_to(x, "builtins.isinstance")
+                  for e in v for x in e.live.walk())
+        ok = empt and typ
     ctx.ob("C13.2", f, ok,
            "empty input or non-Result elements raise" if ok else
            "empty / non-Result input is not refused", key="C13.2:refuse")
